@@ -128,17 +128,26 @@ theorem single_rmw_unique (k d c0 : Nat) (hk : 1 ≤ k) (allocs : List Nat) (sch
     | cons i rest ih => intro w h; exact ih _ (step_inv k d hk w i h)
   exact (this sched _ hinit).nodup
 
-/-- **The code on disk is a single read-modify-write** — the obligation that a change to
-`get_next_uid!` breaks (the file `Generated/UidOp.lean` is rewritten from `/repo` on every run). -/
-theorem generated_is_single_rmw : Generated.allocOps = [.fetchAdd 1] ∧ Generated.retDelta = 1 := by
+/-- the step of an allocation that is ONE atomic read-modify-write -/
+def singleRmw : List AOp → Option Nat
+  | [.fetchAdd k] => some k
+  | _ => none
+
+/-- the step of the code on disk (0 when it is not a single read-modify-write) -/
+def rmwK : Nat := (singleRmw Generated.allocOps).getD 0
+
+/-- **The code on disk is a single read-modify-write** with a positive step — the obligation that a change to
+`get_next_uid!` breaks (the file `Generated/UidOp.lean` is rewritten from `/repo` on every run). What is added to the value
+read (`retDelta`) and where the counter starts do not matter for uniqueness (they matter to libccp: `C06.first_uid_is_marker`). -/
+theorem generated_is_single_rmw : Generated.allocOps = [.fetchAdd rmwK] ∧ 1 ≤ rmwK := by
   decide
 
 /-- hence: uids allocated by the code on disk are unique under every interleaving -/
 theorem uids_unique (allocs : List Nat) (sched : List Nat)
-    (hM : Generated.counterInit + allocs.sum + 1 < M) :
+    (hM : Generated.counterInit + rmwK * allocs.sum + Generated.retDelta < M) :
     (runSchedule Generated.allocOps Generated.retDelta (World.init Generated.counterInit allocs) sched).out.Nodup := by
-  rw [generated_is_single_rmw.1, generated_is_single_rmw.2]
-  exact single_rmw_unique 1 1 _ (by omega) allocs sched (by omega)
+  rw [generated_is_single_rmw.1]
+  exact single_rmw_unique rmwK _ _ generated_is_single_rmw.2 allocs sched hM
 
 /-! ## the uid flows through unchanged -/
 
